@@ -84,7 +84,8 @@ def fold_buffers(ci: ClassInfo, method: str, atoms: Dict[str, bool], attrs: Dict
             out[bname] = exc
     if any(isinstance(v_, Exception) for v_ in out.values()):
         # not a chain of plain definitions (tuple unpacking, a loop ...): the method body is run as a whole
-        ran = run_buffers(fi, atoms, attrs)
+        # helper methods of the class (a static helper that maps label bits to amplitudes) are followed
+        ran = run_buffers(fi, atoms, attrs, funcs={f"self.{nm}": m.node for nm, m in ci.methods.items() if nm not in ("__init__", "forward", method)})
         for k_, v_ in ran.items():
             if isinstance(out.get(k_), Exception) or k_ not in out:
                 out[k_] = v_
